@@ -45,7 +45,7 @@ def bounds(tier):
     q = tier == "quick"
     return {"wrapped": ["ParzenWindowClassifier", "ParzenWindowClassifier(gamma='mean')", "SklearnClassifier(GaussianNB)"], "flags": "all 8 combinations of use_speed_up x enforce_unique_samples x "
             "ignore_partial_fit (speed-up only for PWC)", "weights": [False, True], "index_sets": [list(i) for i in (IDX_MENU if not q else IDX_MENU[:6])],
-            "label_overrides": ["None", "all 1", "all 0"] if not q else ["None", "all 1"], "sample_weight_overrides": "None; constant 3.0 (configurations with weights)", "depth": 3, "depth_note": "quick: the third level uses a reduced menu (index sets [0],[1,2], stored labels, all flag combinations); prefit configurations (classifier fitted on samples [0,3] and stored as base model in __init__) use index sets [1],[2],[3],[0,1] in the quick tier",
+            "label_overrides": ["None", "all 1", "all 0"] if not q else ["None", "all 1"], "sample_weight_overrides": "None; constant 3.0 (configurations with weights)", "depth": 3, "depth_note": "thorough: full menu at the first level, all index sets with stored labels / one override at the second, index sets [0],[3],[1,2] with stored labels at the third; quick: the third level uses a reduced menu (index sets [0],[1,2], stored labels, all flag combinations); prefit configurations (classifier fitted on samples [0,3] and stored as base model in __init__) use index sets [1],[2],[3],[0,1] in the quick tier",
             "max_states": 6000 if q else 40000}
 
 
@@ -112,6 +112,10 @@ def ops_menu(tier, level=0, wts=False, prefit=False):
     if tier == "quick" and level >= 2:
         # third level of the quick tier: reduced menu (every flag combination, three index sets, stored labels)
         sets, ys = [[0], [1, 2]], [None]
+    if tier == "thorough" and level == 1:
+        ys = [None, 1.0]  # second level of the thorough tier: all index sets, stored labels and one override
+    if tier == "thorough" and level >= 2:
+        sets, ys = [[0], [3], [1, 2]], [None]  # third level: reduced menu (every flag combination); a full third level is ~90 CPU-hours
     ops = []
     for idx in sets:
         for yv in ys:
@@ -119,7 +123,7 @@ def ops_menu(tier, level=0, wts=False, prefit=False):
                 ops.append(("fit", tuple(idx), yv, None, sb, None))
                 for ub in (False, True):
                     ops.append(("partial_fit", tuple(idx), yv, ub, sb, None))
-    if wts and (tier != "quick" or level < 2):
+    if wts and level < 2:
         # explicit sample_weight overrides that differ from the constructor's weights (stored labels, all flag combinations)
         for idx in ([[0], [1, 2]] if tier == "quick" else sets[:4]):
             for sb in (False, True):
